@@ -127,7 +127,7 @@ class ParserModel:
                     self.decls.append(ArgDecl(parser, flags, kw, c))
             elif isinstance(st, ast.If) and isinstance(st.test, ast.Name) and st.test.id in env:
                 self.helper_block(st.body if env[st.test.id] else st.orelse, parser, pvar, env)
-            elif isinstance(st, ast.Expr) and isinstance(st.value, ast.Constant):
+            elif isinstance(st, ast.Pass) or (isinstance(st, ast.Expr) and isinstance(st.value, ast.Constant)):
                 pass
             else:
                 self.unmodelled.append("helper: " + ast.unparse(st)[:60])
@@ -146,7 +146,9 @@ def config_keys(ctx):
                 if dotted_parts(c.func) == ["kwargs", "get"] and len(c.args) == 2 and all(isinstance(a, ast.Constant) for a in c.args) and c.args[0].value == t.attr:
                     keys[t.attr] = c.args[1].value
                     ok = True
-        if not ok and not (isinstance(st, ast.Expr) and isinstance(st.value, ast.Constant)):
+        harmless = isinstance(st, ast.Pass) or (isinstance(st, ast.Expr) and isinstance(st.value, ast.Constant)) or (
+            isinstance(st, ast.Expr) and isinstance(st.value, ast.Call) and (dotted_parts(st.value.func) or [""])[0] in ("log", "logging", "print"))
+        if not ok and not harmless:
             other.append(ast.unparse(st)[:80])
     return fi, keys, other
 
@@ -159,7 +161,8 @@ def run(ctx):
     R.floor("C20.1", len(keys), 8, "config_keys")
     pm = ParserModel(ctx.prog).run()
     fsp = ctx.fn(M + "setup_parser")
-    R.check("C20.1", "CLI", fsp, "setup_parser fully modelled", not pm.unmodelled, "statements outside the argparse model: %s" % pm.unmodelled[:3])
+    if pm.unmodelled:  # not a verdict on the code: the model does not cover what it sees
+        R.error("C20.1", "setup_parser: statements outside the argparse model: %s" % pm.unmodelled[:3])
     parsers = sorted({d.parser if isinstance(d.parser, str) else str(d.parser) for d in pm.decls})
     R.floor("C20.1", len(parsers), 21, "parsers")
     declared = [d for d in pm.decls if d.dest in keys]
